@@ -178,6 +178,19 @@ CLAIMED["C12"] = (
     COMMON_NOTE + "fs.RemoveAll / RecursiveLink / os.Rename are opaque file-system calls that change no Go heap; getPath is an assumed pure function.",
     "contract-based deductive verification (call-site / return-site obligations, called() flags + SMT)", "6/C12")
 
+CLAIMED["C04"] = (
+    "Proof, valid for every interleaving because it is a property of each thread's own path, that queueTargetAsync hands a target to the build "
+    "queue (addPendingBuild) only when it was asked to build, only if it itself won the Active->Pending compare-and-swap, and only after, in the "
+    "same round, it waited for every dependency and observed each of them below DependencyFailed (ghost counters tracked at call sites + loop "
+    "invariant); that it marks the target DependencyFailed only when a dependency was observed failed; that queueResolvedTarget starts the "
+    "asynchronous queueing only for the winner of a transition out of Inactive/Semiactive (with only legal transitions requested) and counts "
+    "the pending task before the goroutine is spawned. Kernel-only: the global 'at most once' argument additionally needs that no other site "
+    "moves a target back to Active (a whole-repository site invariant that is not implemented), and the worker loop, FinishBuild/WaitForBuild "
+    "channel semantics and 'reported exactly once' are outside.",
+    COMMON_NOTE + "resolveDependencies, WaitForBuild, SyncUpdateState, addPendingBuild etc. are opaque calls (they may change any heap); atomic "
+    "compare-and-swap is assumed linearizable; goroutine bodies are not executed (go statements are call sites only).",
+    "contract-based deductive verification (tracked ghosts at call sites, call-site obligations + SMT)", "6/C04")
+
 NOT_APPLICABLE = {
     "C05": "liveness / whole-run exit status under all schedules: no per-call contract expresses it (safety fragment is under C04)",
     "C30": "OS process groups, signals and wall-clock bounds; goroutines and select are outside the sequential contract model",
